@@ -188,8 +188,8 @@ def pr(r, lvl=0):
     if t in ('star', 'plus', 'opt', 'rep'):
         a = r[2] if t != 'rep' else r[4]
         s = pr(a, 2)
-        if a[0] in ('star', 'plus', 'opt', 'rep', 'bol', 'eol', 'eps'):
-            s = "(?:" + s + ")" if not s.startswith("(?:") else s
+        if a[0] in ('star', 'plus', 'opt', 'rep', 'bol', 'eol'):
+            s = "(?:" + s + ")"
         if t == 'star':
             q = "*"
         elif t == 'plus':
